@@ -24,12 +24,12 @@ class C35(Check):
     design_ref = "§6 C35"
     rule = ("queues of 1-6 uniquely numbered packets over 1-3 destinations (more queued between passes), a list of service "
             "passes each with the set of destinations that transiently fail during it (errno drawn from the transient set), "
-            "then fault-free passes until the queue drains; non-trivial = some destination failed while packets to another "
+            "then fault-free passes (full passes, or in 30% of the runs one-packet passes) until the queue drains; non-trivial = some destination failed while packets to another "
             "destination or later packets to itself were queued; distinct = digest of (queue, failure pattern)")
     components = {"real": ["ioflo.aio.proto.stacking.UdpStack / GramStack.serviceTxPkts", "ioflo.aio.udp.udping.SocketUdpNb"],
                   "stub": ["socket module (UDP)", "packets (pre-packed bytes)"]}
     assumptions = ["a sendto that raises did not send the datagram"]
-    required_probes = ["fail-with-other-dest-queued", "fail-with-same-dest-behind", "all-fail-pass", "queued-between-passes"]
+    required_probes = ["fail-with-other-dest-queued", "fail-with-same-dest-behind", "all-fail-pass", "queued-between-passes", "drained-by-once-passes"]
     quick_runs = 30000
     thorough_runs = 1500000
     shrink_fields = ["passes", "queue"]
@@ -50,7 +50,7 @@ class C35(Check):
         for _ in range(f.randint(0, 5)):
             fail = [[d, f.choice(TRANSIENT)] for d in range(nd) if f.random() < 0.4]
             passes.append({"fail": fail, "once": f.random() < 0.2})
-        return {"queue": queue, "passes": passes, "late": late}
+        return {"queue": queue, "passes": passes, "late": late, "drain_once": f.random() < 0.3}
 
     def execute(self, plan):
         from ioflo.aio.proto import stacking
@@ -77,7 +77,9 @@ class C35(Check):
                     enqueue(d)
                     out.probe("queued-between-passes")
                 late = [x for x in late if x[1] != npass]
-                spec = passes[npass] if npass < len(passes) else {"fail": [], "once": False}
+                spec = passes[npass] if npass < len(passes) else {"fail": [], "once": bool(plan.get("drain_once"))}
+                if npass >= len(passes) and spec["once"]:
+                    out.probe("drained-by-once-passes")
                 net.dest_faults = dict((DESTS[d], e) for d, e in spec["fail"])
                 pending_before = [(DESTS.index(ha), bytes(p.packed)) for p, ha in st.txPkts]
                 failing = set(d for d, e in spec["fail"])
@@ -111,10 +113,16 @@ class C35(Check):
                     if len(sent_now) > 1:
                         out.violate("once", "serviceTxPktsOnce sent more than one packet", repr(sent_now))
                         break
+                    # the once variant attempts exactly the head of the queue: sent unless its destination fails in this pass
+                    should = [x for x in pending_before[:1] if x[0] not in failing]
+                    if sent_now != should:
+                        out.violate("once-blocked" if not sent_now else "once-wrong", "serviceTxPktsOnce did not send the head of the queue to a healthy destination",
+                                    "pass %d failing %r: sent %r, expected %r (queue %r)" % (npass, sorted(failing), sent_now, should, pending_before))
+                        break
                 npass += 1
                 if npass >= len(passes) and not late and not st.txPkts:
                     break
-                if npass > len(passes) + 12:
+                if npass > len(passes) + 12 + len(queued):
                     out.violate("stuck", "queue does not drain after faults stop", "still queued %r" % ([bytes(p.packed) for p, ha in st.txPkts],))
                     break
             if not out.violations:
